@@ -188,6 +188,12 @@ def gen_select(rng, glyphs, state_predicates=True):
     r = rng.random()
     if r < 0.3:
         return {"kind": "all"}
+    # degenerate lists: an empty include list selects nothing, an empty exclude list everything
+    e = rng.random()
+    if e < 0.05:
+        return {"kind": "include", "names": []}
+    if e < 0.08:
+        return {"kind": "exclude", "names": []}
     k = rng.randint(1, max(1, len(names) - 1))
     if r < 0.55:
         # biased towards taking a composite together with (some of) its bases
